@@ -168,8 +168,10 @@ Lemma too_old_nowrap n g : 0 <= g <= n -> n < G -> (n - g) * ss < H32 ->
 Proof.
   intros Hgn Hn Hr. destruct paws_groups as (HG & HG0 & Hpw & _).
   assert (Ha : 0 <= n * ss < W32) by nia. assert (Hb : 0 <= g * ss < W32) by nia.
-  unfold too_old. rewrite itimediff_plain by (try assumption; unfold H32 in *; nia).
+  unfold too_old. cbv zeta. rewrite itimediff_plain by (try assumption; unfold H32 in *; nia).
   unfold c_maxShardSets.
+  assert (Hnn : (n * ss - g * ss <? 0) = false) by (apply Z.ltb_ge; nia).
+  rewrite Hnn, orb_false_r.
   destruct (3 <? n - g) eqn:E.
   - apply Z.ltb_lt in E. apply Z.gtb_lt. nia.
   - apply Z.ltb_ge in E. destruct (n * ss - g * ss >? 3 * ss) eqn:E2; [|reflexivity].
@@ -183,8 +185,11 @@ Proof.
   intros Hng Hg Hk. destruct paws_groups as (HG & HG0 & Hpw & Hgap).
   assert (Ha : 0 <= n * ss < W32) by nia. assert (Hb : 0 <= g * ss < W32) by nia.
   assert (Hval : n * ss - g * ss + W32 = (n + G - g) * ss + (W32 - paws)) by nia.
-  unfold too_old. rewrite itimediff_wrapped; [|assumption|assumption|unfold H32, W32 in *; nia].
-  unfold c_maxShardSets. destruct (n * ss - g * ss + W32 >? 3 * ss) eqn:E; [|reflexivity].
+  unfold too_old. cbv zeta. rewrite itimediff_wrapped; [|assumption|assumption|unfold H32, W32 in *; nia].
+  unfold c_maxShardSets.
+  assert (Hnn : (n * ss - g * ss + W32 <? 0) = false) by (apply Z.ltb_ge; nia).
+  rewrite Hnn, orb_false_r.
+  destruct (n * ss - g * ss + W32 >? 3 * ss) eqn:E; [|reflexivity].
   apply Z.gtb_lt in E. nia.
 Qed.
 
